@@ -403,6 +403,18 @@ class Executor:
         raise MirUnsupported('projection %r' % (step,))
 
     def read_place(self, path, frame, place):
+        # `(box.0: Unique<T>).0: NonNull<T>` is the raw pointer of a Box: boxes are stored inline, so the pointer is a reference to
+        # the place that holds the boxed value (reads and writes through it alias the box)
+        if place.ty is not None and place.ty.startswith('std::ptr::NonNull<') and len(place.proj) >= 2 and \
+                place.proj[-1] == ('field', 0) and place.proj[-2] == ('field', 0):
+            from .mir import Place
+            base = Place(place.local, place.proj[:-2], None)
+            key, proj = self.canon(path, frame, base)
+            if getattr(self, 'boxes_on_heap', False):
+                cur = self.load_raw(path, key, proj)
+                if isinstance(cur, Ref):
+                    return cur                     # the box is a pointer to a heap cell: copies of the box share it
+            return Ref(key, tuple(proj))
         key, proj = self.canon(path, frame, place)
         return self.load_raw(path, key, proj)
 
@@ -682,7 +694,7 @@ class Executor:
     def cast(self, path, frame, v, src_ty, ty, kind):
         ty = ty.strip()
         if kind.startswith('PointerCoercion') or kind in ('PtrToPtr', 'Transmute', 'FnPtrToPtr'):
-            if kind == 'Transmute':
+            if kind == 'Transmute' and not (isinstance(v, Ref) and ty.startswith('*')):
                 raise MirUnsupported('transmute')
             return v
         if kind == 'IntToInt':
